@@ -38,7 +38,9 @@ META = dict(
          "act_dot itself is recomputed from the documentation. RK4 on quaternion joints: the classical tableau applied to the stage velocities directly (what the tree does) and "
          "its Lie-group (dexp^-1 corrected) form are both accepted; their order of accuracy is C08's subject. RK4 + filterexact/actrange: the final combination is passed through "
          "the same per-dyntype update as the single-step integrators (implementation convention, not spelled out in the docs). "
-         "Constraints appear only as joint limits (variant limit; the oracle takes qfrc_constraint and qacc from the engine). Polynomial damping on ball/free joints is taken per dof.",
+         "Constraints appear only as joint limits (variant limit; the oracle takes qfrc_constraint and qacc from the engine). Polynomial damping on ball/free joints is taken per dof. "
+         "Not covered: dyntypes dcmotor / PID / user, plugin state advance, history buffers, the sleep-filtered and flex-CG code paths, "
+         "SO3 / wrapped servo set-points (no reference in doc/computation); divergence auto-reset belongs to C30.",
     design_ref="DESIGN.md §3 C05")
 
 H = 0.005
@@ -343,7 +345,12 @@ def check_step(c: Case, part, integ, dflags, label, ident, stepno):
     lib.mj_copyData(c.d2, m, d)
     lib.mj_forward(m, c.d2)
     q1, v1, w1, t1, ex = ref_step(c, integ, dflags, pre)
+    nwarn = int(np.array(d.warning)["number"][3:6].sum())
     lib.mj_step(m, d)
+    if int(np.array(d.warning)["number"][3:6].sum()) != nwarn:
+        # mj_checkPos/Vel/Acc detected a blow-up and reset the state (pipeline step 24, property C30): not an update-rule case
+        part.add("autoreset_skipped")
+        return False
     if integ == U.INT_RK4 and mi.quat_adr:
         # accept the Lie-group form of the classical RK4 as well (both use the classical tableau; see C08 for their order):
         # the candidate closer to the engine's result is the one it is held to
@@ -504,6 +511,9 @@ def run(ctx):
                 "state lattice (<=4 configurations x {zero, mixed, unit} velocity, act in {0,.29}, ctrl in {-1,0,.6,2}); 1 step "
                 "from every state and 50 consecutive steps (each one checked) from two of them, h=%g. non-trivial = (model,variant,"
                 "config) with nv>=2 and damping, an actuator or a quaternion joint" % (nmax, menu or list(A.JOINTS), len(ACT_VARIANTS), H))
-    ctx.assumptions = ["oracle uses the engine's M, qacc, qfrc_smooth and qDeriv of an independent mj_forward/mjd_smooth_vel on a copy (C06, C25)",
+    ctx.extra.setdefault("autoreset_skipped", 0)
+    ctx.assumptions = ["a run in which the engine's divergence check (BADQPOS/BADQVEL/BADQACC) resets the state is cut there and counted "
+                       "(autoreset_skipped; only the hostile joint-limit variant with 3 bodies produces such runs)",
+                       "oracle uses the engine's M, qacc, qfrc_smooth and qDeriv of an independent mj_forward/mjd_smooth_vel on a copy (C06, C25)",
                        "tolerances: 1e-12 rel for solve-free rules, 1e-8 for rules with a linear solve, 1e-10 for RK4, 1e-12 quaternion norm",
                        "RK4 final activation update uses the per-dyntype rule with the tableau-averaged act_dot"]
